@@ -262,6 +262,11 @@ class DescriptorTransaction(_TransactionBase):
 
     def write_entities(self, entities: list[Entity | MultiStateEntity], adjust_version_counter: bool = True):
         """Write entities in order parents first."""
+        for ent in entities:
+            # check all entities before writing any of them: a refused call must not stage a part of the list
+            if ent.handle in self.descriptor_updates:
+                msg = f'Entity {ent.handle} already in updated set!'
+                raise ValueError(msg)
         written_handles = []
         ent_dict = {ent.handle: ent for ent in entities}
         while len(written_handles) < len(ent_dict):
